@@ -19,8 +19,8 @@ pub enum H {
 
 pub struct World {
     pub storage: &'static VerifDynStorage,
-    pub tx: PduTx<'static>,
-    pub rx: PduRx<'static>,
+    pub tx: Option<PduTx<'static>>,
+    pub rx: Option<PduRx<'static>>,
     pub pdu_loop: &'static PduLoop<'static>,
     pub regs: BTreeMap<u32, H>,
     pub n: usize,
@@ -80,7 +80,13 @@ impl World {
         storage.set_counters(fi, pi);
         let (tx, rx, pdu_loop) = storage.split();
         let pdu_loop: &'static PduLoop<'static> = Box::leak(Box::new(pdu_loop));
-        World { storage, tx, rx, pdu_loop, regs: BTreeMap::new(), n, data }
+        World { storage, tx: Some(tx), rx: Some(rx), pdu_loop, regs: BTreeMap::new(), n, data }
+    }
+
+    /// Another view of the same storage for a further thread (no TX/RX handle; move those over with
+    /// `take()` as needed).
+    pub fn sibling(&self) -> World {
+        World { storage: self.storage, tx: None, rx: None, pdu_loop: self.pdu_loop, regs: BTreeMap::new(), n: self.n, data: self.data }
     }
 
     pub fn snapshot(&self) -> String {
@@ -111,6 +117,28 @@ impl World {
     fn step_inner(&mut self, op: &str) -> String {
         let f: Vec<&str> = op.split(',').collect();
         let reg = |i: usize| f[i].parse::<u32>().unwrap();
+        // an operation on a register holding another kind of handle is a no-op (`bad-op`): the handle
+        // must stay where it is
+        let want: Option<u8> = match f[0] {
+            "pu" | "re" | "mk" | "dc" => Some(0),
+            "po" | "df" => Some(1),
+            "ts" => Some(2),
+            "fp" | "it" | "dr" => Some(3),
+            "vr" | "vt" | "dv" => Some(4),
+            _ => None,
+        };
+        if let Some(k) = want {
+            let have = self.regs.get(&reg(1)).map(|h| match h {
+                H::Created(_) => 0u8,
+                H::Fut(_) => 1,
+                H::Sendable(_) => 2,
+                H::Received(_) => 3,
+                H::View(_) => 4,
+            });
+            if have != Some(k) {
+                return "bad-op".into();
+            }
+        }
         match f[0] {
             "al" => match verif::alloc_frame(self.pdu_loop) {
                 Ok(fr) => {
@@ -155,7 +183,7 @@ impl World {
                 }
                 _ => "bad-op".into(),
             },
-            "tn" => match self.tx.next_sendable_frame() {
+            "tn" => match self.tx.as_mut().expect("tx role").next_sendable_frame() {
                 Some(sf) => {
                     let s = verif::sendable_slot(&sf);
                     self.regs.insert(reg(1), H::Sendable(sf));
@@ -185,7 +213,7 @@ impl World {
             }
             "rx" => {
                 let bytes = unhex(f[1]);
-                match self.rx.receive_frame(&bytes) {
+                match self.rx.as_mut().expect("rx role").receive_frame(&bytes) {
                     Ok(ethercrab::ReceiveAction::Ignored) => "ignored".into(),
                     Ok(ethercrab::ReceiveAction::Processed) => "processed".into(),
                     Err(e) => err_token(&e),
@@ -235,7 +263,10 @@ impl World {
                 let mut items = Vec::new();
                 for item in fr.into_pdu_iter().take(max) {
                     match item {
-                        Ok(p) => items.push(format!("{}.{}", if p.is_empty() { String::new() } else { hex(&p) }, verif::pdu_wkc(&p))),
+                        Ok(p) => {
+                            let b: Vec<u8> = p.to_vec(); // exactly one Deref
+                            items.push(format!("{}.{}", if b.is_empty() { String::new() } else { hex(&b) }, verif::pdu_wkc(&p)))
+                        }
                         Err(e) => items.push(err_token(&e)),
                     }
                 }
@@ -250,7 +281,8 @@ impl World {
             },
             "vr" => {
                 let Some(H::View(v)) = self.regs.get(&reg(1)) else { return "bad-op".into() };
-                format!("{}.{}.{}", if v.is_empty() { String::new() } else { hex(v) }, v.len(), verif::pdu_wkc(v))
+                let b: Vec<u8> = v.to_vec(); // exactly one Deref
+                format!("{}.{}.{}", if b.is_empty() { String::new() } else { hex(&b) }, v.len(), verif::pdu_wkc(v))
             }
             "vt" => {
                 let Some(H::View(v)) = self.regs.get_mut(&reg(1)) else { return "bad-op".into() };
@@ -273,6 +305,7 @@ impl World {
                 "ok".into()
             }
             "sn" => self.snapshot(),
+            "no" => "ok".into(),
             _ => "bad-op".into(),
         }
     }
@@ -285,3 +318,7 @@ pub fn run_line(line: &str) -> (String, World) {
     let outs: Vec<String> = t[5].split(';').map(|op| w.step(op)).collect();
     (outs.join(";"), w)
 }
+
+// The harness moves a World (with the real handles it holds) into the worker thread that uses it;
+// the baton scheduler guarantees one thread runs at a time.
+unsafe impl Send for World {}
